@@ -1459,6 +1459,9 @@ Op* RegularExpression::compile(const Token* const token, Op* const next,
         break;
     case Token::T_RANGE:
     case Token::T_NRANGE:
+        // build the token's bit map now: RangeToken::match creates it lazily otherwise, which
+        // is a data race when the compiled expression is shared (pattern facet of a cached grammar)
+        ((RangeToken*) token)->createMap();
         ret = fOpFactory.createRangeOp(token);
         ret->setNextOp(next);
         break;
